@@ -50,6 +50,17 @@ def showPrep (off : Nat) (W : Mat) (lk : List Bool) : String :=
     (if s.equal then "-" else showBlocks (findBlocks s.sorted s.offset)) ++
     s!" | {showList toString (keysMinus off W lk)} | {showList toString (keysPlus off W lk)}"
 
+/-- `given <off> <locks> <W> <a> <b>`: `inf_retis` with the code's own two argsort results →
+    `result | offset m | sortIdx | equal | blocks | sorts(a) sorts(b) | branches | sorted matrix` -/
+def showGiven (off : Nat) (W : Mat) (lk : List Bool) (a b : List Nat) : String :=
+  let s := prepareGiven off W lk a b
+  showRes (infRetisGiven W lk off a b) ++ " | " ++
+    (if s.m = 0 then "empty | - | - | -" else
+      s!"{s.offset} {s.m} | {showList toString s.sortIdx} | {if s.equal then 1 else 0} | " ++
+      (if s.equal then "-" else showBlocks (findBlocks s.sorted s.offset))) ++
+    s!" | {if sortsB (keysMinus off W lk) a then 1 else 0} {if sortsB (keysPlus off W lk) b then 1 else 0} | " ++
+    showList id (branchesOfSorted s) ++ " | " ++ showMat s.sorted
+
 /-- draws of `randprob`: per iteration `left s1 s2 <rs>` -/
 def takeDraws : Nat → List String → Option (List PermRandom.Draw × List String)
   | 0, rest => some ([], rest)
@@ -71,7 +82,7 @@ def showCErr : PermCache.CErr → String
   | .st .key => "err:key" | .st .stall => "err:stall"
   | .perm e => showErr e
 
-/-- operations of `cache`: `r` | `l e` | `u e` | `sl t e` | `a ens pn <valid>` | `s` | `p` | `x t e` -/
+/-- operations of `cache`: `r` | `l e` | `u e` | `sl t e` | `a ens pn <valid>` | `s` | `p` | `x t e` | `ri t e` -/
 def takeOps : Nat → List String → Option (List PermCache.Op)
   | 0, [] => some []
   | 0, _ => none
@@ -93,6 +104,10 @@ def takeOps : Nat → List String → Option (List PermCache.Op)
   | k + 1, "x" :: t :: e :: rest =>
     match parseNat? t, parseNat? e with
     | some t, some e => (takeOps k rest).map (fun o => .rawSwap t e :: o)
+    | _, _ => none
+  | k + 1, "ri" :: t :: e :: rest =>
+    match parseNat? t, parseNat? e with
+    | some t, some e => (takeOps k rest).map (fun o => .reissue t e :: o)
     | _, _ => none
   | k + 1, "a" :: ens :: pn :: rest =>
     match parseInt? ens, parseNat? pn, takeList parseRat? rest with
@@ -116,6 +131,19 @@ def handle (toks : List String) : String :=
     | some off, some (locks, rest) =>
       match takeMat rest with
       | some (W, []) => showPrep off W (locks.map (fun x => x == 1))
+      | _ => "bad-op"
+    | _, _ => "bad-op"
+  | "given" :: off :: rest =>              -- given <off> <locks> <W> <a> <b>
+    match parseNat? off, takeList parseNat? rest with
+    | some off, some (locks, rest) =>
+      match takeMat rest with
+      | some (W, rest) =>
+        match takeList parseNat? rest with
+        | some (a, rest) =>
+          match takeList parseNat? rest with
+          | some (b, []) => showGiven off W (locks.map (fun x => x == 1)) a b
+          | _ => "bad-op"
+        | none => "bad-op"
       | _ => "bad-op"
     | _, _ => "bad-op"
   | "randprob" :: n :: rest =>             -- randprob <n> <draws> <arr> → requests | final temp[0] | matrix
